@@ -56,7 +56,7 @@ SIG_MUTEX_SNAPSHOT = "batteries.ReplLockManager:mutex-broken-after-snapshot"
 SIG_FAILED_KEPT = "batteries.ReplLockManager.tryAcquire:failed-acquire-kept"
 SIG_TWO_TOLD = "batteries.ReplLockManager.tryAcquire:two-clients-told-they-hold"
 SIG_RELEASED_KEPT = "batteries.ReplLockManager.release:released-lock-kept"
-LOSS_DISCIPLINE = False      # harness-injected loss of queued commands ("drop" events); see notes/locks.md
+LOSS_DISCIPLINE = True       # harness-injected loss of queued commands ("drop" events); see notes/locks.md
 
 
 def delay(rng, U, mode):
@@ -92,8 +92,10 @@ def gen_events(rng, U, ncl, nlk, n, mode):
             evs.append(("heal", c))
         elif r < 0.99:
             evs.append(("install", c, rng.randrange(ncl)))
-        else:
+        elif r < 0.995 or not LOSS_DISCIPLINE:
             evs.append(("restart", c))
+        else:
+            evs.append(("drop", c))
     return evs
 
 
@@ -734,6 +736,7 @@ FLOORS = ["try", "release", "tick.prolong", "tick.skip", "deliver", "partition",
           "pro.expires-lock.of-the-prolonging-holder", "acq.of-free-or-expired-lock",
           "directed.outcome-open", "try.outcome-open", "directed.lapse-and-reacquire", "told-true.1", "directed.release-then-retry-told-failed",
           "directed.release-on-lagging-replica", "release.while-local-replica-shows-lock-expired",
+          "directed.compensating-release-lost", "drop.rel",
           "acq.reacquire-of-own-expired-lock"]
 
 
